@@ -179,6 +179,27 @@ def _chk_cli_module(site, pm, px):
     return site.module.name.startswith("nunavut.cli"), "command-line front end: declared input / stdout listing, not file content"
 
 
+def _chk_lister_callback(site, pm, px):
+    """generic: a helper of the CLI runner whose only use is as the to-string callback of the stdout lister (a listing printed for the
+    build system, never file content)"""
+    f = site.func
+    if f is None or not site.module.name.startswith("nunavut.cli"):
+        return False, "not a CLI listing helper"
+    uses = []
+    for n in ast.walk(site.module.tree):
+        if (isinstance(n, ast.Attribute) and n.attr == f.name) or (isinstance(n, ast.Name) and n.id == f.name and isinstance(n.ctx, ast.Load)):
+            uses.append(n)
+    if not uses:
+        return False, "helper is never used"
+    mpm = pyfront.parent_map(site.module.tree)
+    for u in uses:
+        par = mpm.get(id(u))
+        ok = isinstance(par, ast.Call) and u in par.args and isinstance(par.func, ast.Attribute) and par.func.attr == "_stdout_lister"
+        if not ok:
+            return False, f"`{f.name}` is used outside a _stdout_lister(...) callback position"
+    return True, "only ever passed as the to-string callback of the stdout lister: listing for the build system, not file content"
+
+
 def _chk_postprocessor_cmd(site, pm, px):
     c = site.func.cls if site.func is not None else None
     ok = c is not None and any(b.name == "FilePostProcessor" for b in c.bases)
@@ -322,7 +343,7 @@ def rule_ambient_py(ctx, px):
             if chk is None:
                 # generic structural justifications that hold for any site: the value can only reach a log record, or only selects
                 # code by interpreter version
-                for g_chk in (_chk_logging_arg, _chk_version_gate):
+                for g_chk in (_chk_logging_arg, _chk_version_gate, _chk_lister_callback):
                     try:
                         okg, whyg = g_chk(s, pm, px)
                     except Exception:
